@@ -972,6 +972,10 @@ class Interp:
             seq, n = (a, b) if not isnum(a) else (b, a)
             if isnum(n):
                 nn = self.as_int(n)
+                if self.is_list(seq) and isinstance(self.cell(seq).content, list) and VInt(nn).const() is not None \
+                        and 0 <= VInt(nn).const() <= 64:
+                    # a literal list repeated a literal number of times ([None] * 2)
+                    return self.alloc(HList(list(self.cell(seq).content) * VInt(nn).const(), self.cell(seq).kind))
                 if self.is_list(seq) and isinstance(self.cell(seq).content, list) and len(self.cell(seq).content) == 1:
                     e = self.cell(seq).content[0]
                     if isinstance(e, VInt):
